@@ -5,6 +5,7 @@
 package c03
 
 import (
+	"github.com/invopop/gobl/bill"
 	"strings"
 
 	"github.com/invopop/gobl/l10n"
@@ -130,7 +131,11 @@ func Run(c *core.Ctx) int {
 			} else {
 				c.Count("after-removal", 1)
 				if errs := calcproto.ReaddIdentities(a, sub); len(errs) > 0 {
-					c.Fail("", "after RemoveIncludedTaxes the presented figures do not re-add: "+strings.Join(errs, "; "), c01.Case{Doc: d})
+					cls := ""
+					if removalLeftFixedAmountFiner(a, sub) {
+						cls = "c03.removalLeavesFixedAmountFiner"
+					}
+					c.Fail(cls, "after RemoveIncludedTaxes the presented figures do not re-add: "+strings.Join(errs, "; "), c01.Case{Doc: d})
 				}
 			}
 		}
@@ -139,4 +144,48 @@ func Run(c *core.Ctx) int {
 		}
 	}
 	return c.Finish("random documents under the currency rule (explicit, or Greek regime default), fixed discount/charge/advance amounts at the currency's precision, prices with up to 6 decimals, tax-included prices, currencies with 0/2/3 decimals; the identities are recomputed from the presented figures only; non-trivial = at least one line", nil)
+}
+
+// removalLeftFixedAmountFiner: RemoveIncludedTaxes divides every fixed line or
+// document discount/charge amount of a row carrying the included tax by
+// (1 + rate) at two extra decimals and stores the result; under the currency
+// rule such an amount stays finer than the currency while the totals built from
+// it are rounded to the currency (the C03 face of the known finding
+// fixed-amount-finer-than-presented of C04/C17).
+func removalLeftFixedAmountFiner(a *bill.Invoice, sub uint32) bool {
+	for _, l := range a.Lines {
+		for _, d := range l.Discounts {
+			if (d.Percent == nil || d.Percent.IsZero()) && d.Amount.Exp() > sub {
+				return true
+			}
+		}
+		for _, d := range l.Charges {
+			if (d.Percent == nil || d.Percent.IsZero()) && d.Amount.Exp() > sub {
+				return true
+			}
+		}
+		for _, sl := range l.Breakdown {
+			for _, d := range sl.Discounts {
+				if (d.Percent == nil || d.Percent.IsZero()) && d.Amount.Exp() > sub {
+					return true
+				}
+			}
+			for _, d := range sl.Charges {
+				if (d.Percent == nil || d.Percent.IsZero()) && d.Amount.Exp() > sub {
+					return true
+				}
+			}
+		}
+	}
+	for _, d := range a.Discounts {
+		if (d.Percent == nil || d.Percent.IsZero()) && d.Amount.Exp() > sub {
+			return true
+		}
+	}
+	for _, d := range a.Charges {
+		if (d.Percent == nil || d.Percent.IsZero()) && d.Amount.Exp() > sub {
+			return true
+		}
+	}
+	return false
 }
